@@ -124,7 +124,7 @@ def build_pipeline(prog: dict, order: list[int] | None = None, **pipeline_kw):
         kw: dict[str, Any] = {}
         if f.get("spec") is not None:
             kw["mapspec"] = ref.canonical_str(f["spec"])
-        if f.get("internal"):
+        if f.get("internal") and not f.get("internal_via_map"):
             kw["internal_shape"] = tuple(f["internal"])
         if f.get("defaults"):
             kw["defaults"] = dict(f["defaults"])
@@ -134,6 +134,17 @@ def build_pipeline(prog: dict, order: list[int] | None = None, **pipeline_kw):
             kw["cache"] = f["cache"]
         funcs.append(PipeFunc(make_callable(f), output_name=outs if len(outs) > 1 else outs[0], **kw))
     return Pipeline(funcs, **pipeline_kw)
+
+
+def map_kwargs(prog: dict) -> dict:
+    """Extra keyword arguments for Pipeline.map: internal shapes that are not declared on the PipeFunc (a bare int
+    for one internal axis, which the API allows)."""
+    shapes = {}
+    for f in prog["funcs"]:
+        if f.get("internal") and f.get("internal_via_map"):
+            for o in f["outputs"]:
+                shapes[o] = f["internal"][0] if len(f["internal"]) == 1 and f.get("internal_bare_int") else tuple(f["internal"])
+    return {"internal_shapes": shapes} if shapes else {}
 
 
 def real_inputs(prog: dict) -> dict:
@@ -320,6 +331,7 @@ def gen_map_program(rng: random.Random, n_funcs: int = 2, max_rank: int = 2, all
             sizes[ix] = d
             spec = {"inputs": [], "outputs": [(o, (ix,)) for o in outs]}
             funcs.append({"name": name, "params": [], "outputs": outs, "spec": spec, "internal": (d,)})
+            _via_map(funcs[-1], rng)
             for o in outs:
                 arrays[o] = (ix,)
             continue
@@ -358,6 +370,7 @@ def gen_map_program(rng: random.Random, n_funcs: int = 2, max_rank: int = 2, all
                 internal = (d,)
         spec = {"inputs": spec_in, "outputs": [(o, tuple(oidx)) for o in outs]}
         funcs.append({"name": name, "params": params, "outputs": outs, "spec": spec, "internal": internal})
+        _via_map(funcs[-1], rng)
         for o in outs:
             arrays[o] = tuple(oidx)
     used = {p for f in funcs for p in f["params"]}
@@ -377,9 +390,16 @@ def gen_map_program(rng: random.Random, n_funcs: int = 2, max_rank: int = 2, all
     return {"funcs": funcs, "inputs": inputs, "sizes": sizes}
 
 
+def _via_map(f: dict, rng) -> None:
+    if f.get("internal") and rng.random() < 0.4:
+        f["internal_via_map"] = True
+        f["internal_bare_int"] = rng.random() < 0.5
+
+
 def describe(prog: dict) -> dict:
     return {"funcs": [{"name": f["name"], "params": f["params"], "outputs": f["outputs"],
                        "mapspec": ref.canonical_str(f["spec"]) if f.get("spec") else None,
-                       "internal": f.get("internal"), **({"defaults": f["defaults"]} if f.get("defaults") else {}),
+                       "internal": f.get("internal"), "internal_via_map": f.get("internal_via_map", False),
+                       "internal_bare_int": f.get("internal_bare_int", False), **({"defaults": f["defaults"]} if f.get("defaults") else {}),
                        **({"bound": f["bound"]} if f.get("bound") else {})} for f in prog["funcs"]],
             "inputs": prog["inputs"]}
